@@ -44,7 +44,7 @@ func (d *decoratorCtl) Stores() []vs.InformerSpec {
 	return out
 }
 func (d *decoratorCtl) SyncInfo(parent vs.Obj) vs.Obj {
-	return vs.Obj{"sel": vs.SelectorInfo(nil), "selOK": false, "marker": d.c.dc.Name}
+	return vs.Obj{"sel": vs.SelectorInfo(nil), "selOK": false, "marker": d.c.dc.Name, "fin": d.c.finalizer.Name}
 }
 
 func boolp(b bool) *bool { return &b }
